@@ -75,7 +75,7 @@ func prop(t *rapid.T) {
 		MaxDepth: rapid.IntRange(0, 3).Draw(t, "maxDepth"), MaxMw: 3, MaxStmts: 4,
 		LongChains: rapid.IntRange(0, ev.Pick(5, 2)).Draw(t, "longChains") == 0,
 		Fallbacks:  true, Dynamic: false,
-		Script: chain.ScriptCfg{Writes: true, Copies: true, Abort: rapid.SampledFrom([]int{2, 4, 8, 30}).Draw(t, "abortRate")},
+		Script: chain.ScriptCfg{Writes: true, Data: true, Copies: true, Abort: rapid.SampledFrom([]int{2, 4, 8, 30}).Draw(t, "abortRate")},
 	}
 	prog := chain.GenProgram(t, w, opts, cfg)
 	pm := prog.Model()
